@@ -17,12 +17,16 @@ Theorem C09_suffix_not_doubled :
 Proof. intros tok e H. unfold add_etag_suffix. rewrite H. reflexivity. Qed.
 Print Assumptions C09_suffix_not_doubled.
 
-(* normalizeEtag is TrimLeft with the cutset "W/", not removal of the prefix W/: two
-   different unquoted ETags compare equal (a refutation of "304 only on a match"). *)
-Theorem C09_normalize_refuted :
-  bytes "Wabc" <> bytes "abc" /\ normalize_etag (bytes "Wabc") = normalize_etag (bytes "abc").
-Proof. split; [discriminate | vm_compute; reflexivity]. Qed.
-Print Assumptions C09_normalize_refuted.
+(* normalizeEtag removes exactly one weak prefix (after the repair of F24; with TrimLeft's
+   cutset "W/" the unquoted ETags Wabc and abc compared equal). *)
+Theorem C09_normalize_exact :
+  forall e, normalize_etag (bytes "W/" ++ e) = e /\ (has_prefix e (bytes "W/") = false -> normalize_etag e = e).
+Proof.
+  intros e. split.
+  - unfold normalize_etag, trim_prefix. rewrite has_prefix_app. reflexivity.
+  - intros H. unfold normalize_etag, trim_prefix. rewrite H. reflexivity.
+Qed.
+Print Assumptions C09_normalize_exact.
 
 (* tests on literals: strip undoes add for quoted, weak and unquoted ETags *)
 Example C09_strip_add_samples :
